@@ -107,6 +107,37 @@ theorem Rel.order_eq {h : Nat → Nat} {pt : PTable} {t : Table} (hr : Rel pt t)
   unfold PTable.order
   exact toList_seg pt.items pt.self t.order none pt.begin pt.size hr.order (by rw [hr.size, hi.size_eq]; exact Nat.le_refl _)
 
+theorem toListBack_seg (items : Nat → PItem) (last : Nxt) (l : List Nat) :
+    ∀ (b0 : Option Nat) (first : Nxt) (f : Nat),
+    GSeg Nxt.item some (fun i => (items i).next) (fun i => (items i).prev) b0 first l last →
+    PTable.toListBack items (l.length + f) (lastB some b0 l) = (PTable.toListBack items f b0).map (l.reverse ++ ·) := by
+  induction l with
+  | nil =>
+    intro b0 first f _
+    simp only [List.length_nil, Nat.zero_add, lastB, List.reverse_nil, List.nil_append]
+    cases PTable.toListBack items f b0 <;> rfl
+  | cons x r ih =>
+    intro b0 first f hg
+    simp only [GSeg] at hg
+    obtain ⟨_, h2, h3⟩ := hg
+    have := ih (some x) _ (f + 1) h3
+    simp only [lastB, List.length_cons]
+    rw [show r.length + 1 + f = r.length + (f + 1) by omega, this]
+    simp only [PTable.toListBack, h2, Option.map_map]
+    congr 1
+    funext t
+    simp
+
+/-- backward iteration yields the order list reversed -/
+theorem Rel.orderBack_eq {h : Nat → Nat} {pt : PTable} {t : Table} (hr : Rel pt t) (hi : t.Inv h) :
+    pt.orderBack = some t.order.reverse := by
+  unfold PTable.orderBack
+  rw [hr.last, hr.size, hi.size_eq]
+  have := toListBack_seg pt.items (.stl pt.self) t.order none pt.begin 0 hr.order
+  simp only [Nat.add_zero] at this
+  rw [this]
+  simp [PTable.toListBack]
+
 theorem Rel.endPrev_eq {pt : PTable} {t : Table} (hr : Rel pt t) : pt.endPrev = t.order.getLast? := by
   rw [hr.last, lastB_some]
   cases t.order.getLast? <;> rfl
